@@ -258,6 +258,18 @@ def check_layout(out, A, view=False):
         # injective: the first block column holds the four planes
         for p in range(4):
             out.equal_bits("Realp(matrices):first block column holds the planes", Rb[p * m:(p + 1) * m, 0:n], A[..., p])
+        # planes of mixed dtype: any plane whose values happen to be integers may arrive as an integer array
+        # (e.g. np.eye(n, dtype=int) or np.zeros((m, n), dtype=int) as real part); the embedding is the same
+        pl = planes(A, view)
+        mixed = [np.asarray(x).astype(np.int64) if np.all(np.asarray(x) == np.round(np.asarray(x))) and np.all(np.abs(x) < 2 ** 52)
+                 else x for x in pl]
+        if any(np.asarray(x).dtype.kind == "i" for x in mixed) and not all(np.asarray(x).dtype.kind == "i" for x in mixed):
+            okm, Rm = out.call("Realp(matrices, mixed dtypes)", L.utils.Realp, *mixed)
+            if okm:
+                Rm = as_real(out, "Realp(matrices, mixed dtypes)", Rm, (4 * m, 4 * n))
+                if Rm is not None:
+                    out.equal_bits("Realp(matrices, mixed dtypes):same embedding as with float planes", Rm, wantb)
+                    out.label("mixed_dtype_planes")
     return E, Rb
 
 
